@@ -75,6 +75,7 @@ def _cov(ck):
         "calls_in_histories": c("calls_in_histories"),
         "super_call_and_table_probes": c("super_call_and_table_probes"),
         "programs_loaded_from_binary": c("programs_loaded_from_binary"),
+        "binary_reloads_with_name_address_order_flipped": c("binary_reloads_with_name_address_order_flipped"),
         "elements_whose_cache_state_space_closed": c("elements_whose_cache_state_space_closed"),
         "elements_with_f_below_g_in_address_order": c("elements_with_f_below_g_in_address_order"),
         "exhaustive": all(p.get("exhaustive") for p in parts) if parts else False,
